@@ -12,6 +12,7 @@ use crate::topics::{RemoveSubscriptionError, Topic, TopicMessage, TopicName};
 use futures::future::Shared;
 use futures::FutureExt;
 use parking_lot::Mutex;
+use std::sync::atomic::{AtomicBool, Ordering};
 use std::sync::{Arc, Weak};
 use tokio::sync::{mpsc, oneshot, Notify};
 use tokio::time::Instant;
@@ -279,6 +280,7 @@ impl SubscriptionActor {
         }
 
         self.deleted = true;
+        self.observer.notify_deletion_started();
         self.outstanding.clear();
         self.backlog.clear();
 
@@ -352,6 +354,10 @@ pub(crate) struct SubscriptionObserver {
     // This shouldn't impact performance since it's only used for deletion,
     // which happens at most once per subscription.
     deleted_send: Mutex<Option<oneshot::Sender<()>>>,
+
+    /// Set as soon as a deletion has started (before the subscription is removed
+    /// from its topic), so that a creation that is still attaching can tell.
+    deletion_started: AtomicBool,
 }
 
 impl SubscriptionObserver {
@@ -362,12 +368,23 @@ impl SubscriptionObserver {
             deleted_send: Mutex::new(Some(deleted_send)),
             deleted_recv: deleted_recv.shared(),
             notify_messages_available: Notify::new(),
+            deletion_started: AtomicBool::new(false),
         }
     }
 
     /// Notifies of new messages being available.
     pub fn notify_new_messages_available(&self) {
         self.notify_messages_available.notify_one();
+    }
+
+    /// Records that a deletion of the subscription has started.
+    pub fn notify_deletion_started(&self) {
+        self.deletion_started.store(true, Ordering::SeqCst);
+    }
+
+    /// Whether a deletion of the subscription has started.
+    pub fn deletion_started(&self) -> bool {
+        self.deletion_started.load(Ordering::SeqCst)
     }
 
     /// Notifies that the subscription was deleted.
